@@ -648,6 +648,56 @@ def rule_idle_axis_reported(chk, prog):
                               "a pair that has already been processed is offered again: with only unresolvable pairs left makeFeasible() never returns")
 
 
+_FEASIBILITY_FIELDS = ("cola::CompoundConstraint::_currSubConstraintIndex", "cola::SubConstraintInfo::satisfied")
+_FEASIBILITY_CALLS = ("subConstraintsRemaining", "markCurrSubConstraintAsActive", "markAllSubConstraintsAsInactive", "getCurrSubConstraintAlternatives")
+
+
+def rule_translators_offered(chk, prog, cg):
+    from ..facts import walk
+    r = chk.rule("EVERY-COMPOUND-OFFERED", "wherever a list of compound constraints is translated for a solver (calls of the virtual "
+                 "generateVariables / generateSeparationConstraints inside a loop over the list: GradientProjection, setupVarsAndConstraints, "
+                 "setupExtraConstraints, projectOntoCCs, ACALayout, the orthogonal topology improver), no iteration of the loop can get "
+                 "past the call: which dimension a compound constraint acts in is the constraint's own business (FixedRelativeConstraint "
+                 "and PageBoundaryConstraints act in both whatever dimension() says) -- a constraint that is not offered is violated "
+                 "without being reported", floor=12)
+    for fn in prog.all_functions():
+        if not fn.body or "/tests/" in fn.file:
+            continue
+        cs_ = [c for c in calls(fn) if c.get("cname") in ("cola::CompoundConstraint::generateSeparationConstraints", "cola::CompoundConstraint::generateVariables")]
+        if not cs_:
+            continue
+        g = None
+        for c in cs_:
+            lp = [a for a in fn.ancestors(c) if a.get("k") in ("ForStmt", "CXXForRangeStmt", "WhileStmt")]
+            if not lp:
+                continue
+            r.count()
+            g = g or CFG(fn)
+            w = g.iteration_can_skip(lp[0], [c["id"]])
+            (r.ok if w is None else r.bad)("%s in %s" % (c["cname"].split("::")[-1], fn.q), fn.loc(c), "" if w is None else
+                                           "an iteration of the loop over the compound constraints can skip this call (%s)" % g.describe(w))
+    r2 = chk.rule("TRANSLATORS-IGNORE-FEASIBILITY-BOOKKEEPING", "no generateVariables / generateSeparationConstraints of a compound constraint class (22 "
+                  "functions; call-graph closure) reads the cursor and `satisfied` marks that makeFeasible() keeps while it tries the "
+                  "sub-constraints one by one, or calls the functions that step through them: what run() offers the solver -- and hence "
+                  "what it reports as unsatisfiable -- does not depend on whether, and with which outcome, makeFeasible() ran before", floor=20)
+    bykey = {f.key: f for f in prog.all_functions()}
+    for rt in prog.all_functions():
+        if not (rt.body and rt.name in ("generateSeparationConstraints", "generateVariables") and rt.cls and rt.cls.startswith(("cola::", "topology::", "dialect::"))):
+            continue
+        r2.count()
+        bad = None
+        for k in sorted(cg.reachable([rt.key])):
+            f = bykey.get(k)
+            if f is None or not f.body:
+                continue
+            if f.name in _FEASIBILITY_CALLS and (f.cls or "").startswith("cola::"):
+                bad = bad or "reaches %s" % f.q
+            for n in f.nodes():
+                if n.get("k") == "MemberExpr" and n.get("ref") in _FEASIBILITY_FIELDS:
+                    bad = bad or "%s reads %s at %s" % (f.q, n["ref"].split("::")[-1], f.loc(n))
+        (r2.bad if bad else r2.ok)(rt.q, rt.where(), bad or "")
+
+
 def run(chk):
     prog = chk.load()
     cg = CallGraph(prog)
@@ -656,6 +706,7 @@ def run(chk):
     chk.guard(rule_fixed_relative, chk, prog)
     chk.guard(rule_done_reset, chk, prog)
     chk.guard(rule_translators, chk, prog)
+    chk.guard(rule_translators_offered, chk, prog, cg)
     chk.guard(rule_creator, chk, prog)
     chk.guard(rule_projection, chk, prog)
     chk.guard(rule_makefeasible, chk, prog)
